@@ -154,6 +154,7 @@ FILE = {"k": "file"}        # a file the job writes (scalar file-typed output)
 FILES = {"k": "files"}      # an array of two files
 FMAP = {"k": "fmap"}        # a typed map of two files
 FSTR = {"k": "fstr"}        # a string holding the path of a file the job wrote
+FINSIDE = {"k": "finside"}   # a file inside the directory that is the same stage's output `d`
 FSO = {"k": "fso"}           # a struct {file f; file o} whose member o lies outside the pipestance
 FSTRUCT = {"k": "fstruct"}
 FMSTRUCT = {"k": "fmstruct"}  # a typed map of two structs {file f; int n}
